@@ -15,6 +15,7 @@ PROPS = {
                 assumptions=["generation numbers compared by rank, not by value",
                              "store clock strictly increasing between successive writes"]),
     "C02": dict(harness="gcs", trusted=GCS_TRUST, assumptions=["generation numbers compared by rank"]),
+    "C09": dict(harness="gcs", trusted=GCS_TRUST, assumptions=["file mtime (generation) strictly increases between successive writes", "pending resumable uploads are per-instance session state"]),
     "C10": dict(harness="gcs", trusted=GCS_TRUST, assumptions=["store clock strictly increasing between successive writes (collisions are measured and reported)"]),
     "C11": dict(harness="gcs", trusted=GCS_TRUST, assumptions=["page tokens compared by the name they decode to"],
                 oracle_codes={1: "a complete pagination does not yield exactly the matching names once, in order", 2: "collapsed prefixes of a complete pagination are not exactly the distinct prefixes, once", 3: "a page holds more than maxResults entries"}),
@@ -82,6 +83,8 @@ TEXT = {
              level="Theorems about parseConds/validateConds and every handler model: the code's truth table equals 'every supplied precondition holds' for all values and object states (guarded; the excluded case is refuted by a witness = finding GCS-7), failure codes lie in the allowed set, errors leave all objects untouched. Correspondence: the complete 4-parameter x 6-value x 4-state x 7-operation x 2-store table plus random histories, with a model-independent oracle on the observed responses." + _CORR, note=_NOTE),
  "C05": dict(technique="Coq proof (regex matcher correctness, filter evaluator vs denotational filter semantics) + differential correspondence on generated filter trees, 3 engines",
              level="Theorems about the filter model: the derivative matcher decides the regular language; the evaluator refines the cell-list semantics of every supported filter; invalid arguments are rejected by the validator for all trees." + _CORR, note=_NOTE),
+ "C09": dict(technique="Coq proof (file-store walk model agrees with the memory-store walk on order-compatible name sets; refuted otherwise) + paired differential correspondence (both stores against their models) with a restart probe at request boundaries",
+             level="One handler model serves both stores and differs only in the listing walk (bytewise order vs filepath.Walk order with directory entries); theorems relate the two walks, and the order discrepancy (GCS-2) is refuted by a witness. Correspondence: each program runs on both real stores against the corresponding model; on the file store a fresh emulator instance on the same directory must answer like the running one at request boundaries; a sidecar-less content file must be served." + _CORR, note=_NOTE),
  "C10": dict(technique="Coq invariant proof (generation counter monotone, metageneration laws) + differential correspondence on random histories, both stores",
              level="Theorems over all histories of the handler model with the store clock as a strictly increasing counter: every content write gets a generation above everything handed out before and metageneration 1; a patch bumps only metageneration; reads and failures change nothing." + _CORR, note=_NOTE + " Assumes the stores' wall clock strictly increases between successive writes."),
  "C11": dict(technique="Coq proof (pagination complete/duplicate-free/sorted for the memory store without delimiter; early-exit soundness) + exhaustive enumeration of name-universe subsets x prefixes x delimiters x page sizes with a whole-pagination oracle, both stores",
